@@ -144,24 +144,36 @@ Proof.
   rewrite s_pat_apply_is, s_apply_ctx. cbn [cx_changes cx_serial]. rewrite map_length, <- app_assoc. reflexivity.
 Qed.
 
-(* a PMT version (the application's call-backs only record: deep = false) *)
+(* a PMT version.  What the application notes of the PmtSection / StreamInfo it is handed goes into the request:
+   the PCR PID only (deep = false), or every accessor of both (deep = true) *)
+Variable deep : bool.
+Definition pmt_obs (body : list N) (s : stream_info) : list N :=
+  if deep then match obs_pmt_section body, obs_stream s with Ok a, Ok b => a ++ b | _, _ => [] end
+  else [s_pcr_pid body].
 Definition pmt_ent (P : N) (body : list N) (s : stream_info) : N * request :=
-  (s_elementary_pid (si_data s), RqByStream P (s_stream_type (si_data s)) (s_elementary_pid (si_data s)) [s_pcr_pid body]).
+  (s_elementary_pid (si_data s), RqByStream P (s_stream_type (si_data s)) (s_elementary_pid (si_data s)) (pmt_obs body s)).
 
-Lemma pmt_entries_spec P body ss : forall cx seen reg, bytes_ok body -> (4 <= length body)%nat ->
+Lemma pmt_entries_spec P body ss : forall cx seen reg, bytes_ok body -> s_pmt_accept body = ROk body ->
   Forall stream_fit ss ->
-  pmt_entries policy false P body cx seen reg ss =
+  pmt_entries policy deep P body cx seen reg ss =
   Ok (fst (s_apply policy cx (map (pmt_ent P body) ss)),
       fold_left (fun s d => bs_insert (s_elementary_pid (si_data d)) s) ss seen,
       fold_left (fun s d => bs_insert (s_elementary_pid (si_data d)) s) ss reg,
       snd (s_apply policy cx (map (pmt_ent P body) ss))).
 Proof.
-  induction ss as [|s r IH]; intros cx seen reg Hb Hl Hss; [reflexivity|].
-  inversion Hss as [|? ? (Hsb & Hsl & _) Hss']; subst. cbn [pmt_entries map s_apply fold_left pmt_ent].
+  induction ss as [|s r IH]; intros cx seen reg Hb Hacc Hss; [reflexivity|].
+  assert (Hl : (4 <= length body)%nat) by (unfold s_pmt_accept in Hacc; destruct (Nat.ltb_spec (length body) 4); [discriminate|lia]).
+  inversion Hss as [|? ? (Hsb & Hsl & Hfit) Hss']; subst. cbn [pmt_entries map s_apply fold_left pmt_ent].
+  assert (Eo : (if deep then do a <- obs_pmt_section body; do b <- obs_stream s; Ok (a ++ b)
+                else do pcr <- pmt_pcr_pid body; Ok [pcr]) = Ok (pmt_obs body s)).
+  { unfold pmt_obs. destruct deep.
+    - destruct (obs_pmt_section_total body Hb Hacc) as [a Ea]. rewrite Ea. cbn [bind].
+      destruct (obs_stream_total s Hsb Hsl Hfit) as [b Eb]. rewrite Eb. reflexivity.
+    - destruct (c16_pcr_pid body Hb Hl) as (E3 & _). rewrite E3. reflexivity. }
+  rewrite Eo. clear Eo. generalize (pmt_obs body s). intros oo.
   destruct s as [o d]. cbn [si_data] in *.
   destruct (c16_stream_fields o d Hsb Hsl) as (E1 & E2 & Hle). rewrite E1, E2. cbn [bind].
-  destruct (c16_pcr_pid body Hb Hl) as (E3 & _). rewrite E3. cbn [bind].
-  destruct (construct policy cx (RqByStream P (s_stream_type d) (s_elementary_pid d) [s_pcr_pid body])) as [[cx1 hh] ev] eqn:Ec.
+  destruct (construct policy cx (RqByStream P (s_stream_type d) (s_elementary_pid d) oo)) as [[cx1 hh] ev] eqn:Ec.
   unfold bs_insert_checked, assert, BITSET_CAPACITY. replace (s_elementary_pid d <? 8192) with true by lia. cbn [bind].
   rewrite IH by assumption. cbn [bind].
   destruct (s_apply policy (queue cx1 (ChInsert (s_elementary_pid d) hh)) (map (pmt_ent P body) r)) as [cx3 ev3]. reflexivity.
@@ -178,7 +190,7 @@ Lemma pmt_section_spec ps cx h tsh data origin : bytes_ok data -> (12 <= length 
   let ents := map (pmt_ent (pmt_pid ps) body) ss in
   let seen := fold_left (fun s d => bs_insert (s_elementary_pid (si_data d)) s) ss [] in
   let reg := fold_left (fun s d => bs_insert (s_elementary_pid (si_data d)) s) ss (pmt_registered ps) in
-  pmt_section policy false ps cx h tsh data origin =
+  pmt_section policy deep ps cx h tsh data origin =
   Ok ({| pmt_pid := pmt_pid ps; pmt_program_number := pmt_program_number ps; pmt_registered := seen |},
       {| cx_changes := cx_changes cx ++ ins_list policy (cx_serial cx) ents ++ map ChRemove (bs_difference reg seen);
          cx_serial := cx_serial cx + N.of_nat (length ss) |},
@@ -197,7 +209,7 @@ Proof.
   assert (H4 : (4 <= length body)%nat).
   { unfold s_pmt_accept in Eacc. destruct (Nat.ltb_spec (length body) 4); [discriminate|lia]. }
   assert (Hss : Forall stream_fit ss) by (apply s_streams_fit, Forall_skipn, Hbody).
-  rewrite (pmt_entries_spec (pmt_pid ps) body ss cx [] (pmt_registered ps) Hbody H4 Hss). cbn [bind].
+  rewrite (pmt_entries_spec (pmt_pid ps) body ss cx [] (pmt_registered ps) Hbody Eacc Hss). cbn [bind].
   fold ents. fold seen. fold reg.
   assert (Hpids : Forall (fun d => s_elementary_pid (si_data d) <= 8191) ss).
   { eapply Forall_impl; [|exact Hss]. intros [o d] (Hsb & Hsl & _). cbn [si_data] in *. apply (c16_stream_fields o d Hsb Hsl). }
@@ -289,7 +301,8 @@ End OnePacket.
 Section EndToEnd.
 Variable policy : request -> hkind.
 Variable scripts : N -> nat -> list action.
-Notation spec_packet' := (spec_packet policy scripts false false).
+Variable deep : bool.
+Notation spec_packet' := (spec_packet policy scripts false deep).
 
 Definition unflagged (pk : pkt) : Prop :=
   pkt_transport_error_indicator pk = Ok false /\
@@ -309,7 +322,7 @@ Lemma pmt_packet_changes fs cx i pk P s c poff S rest v :
   let ps := in_state c in
   let body := sect_body S in
   let ss := pmt_streams_of body in
-  let ents := map (pmt_ent (pmt_pid ps) body) ss in
+  let ents := map (pmt_ent deep (pmt_pid ps) body) ss in
   let seen := fold_left (fun s d => bs_insert (s_elementary_pid (si_data d)) s) ss [] in
   let reg := fold_left (fun s d => bs_insert (s_elementary_pid (si_data d)) s) ss (pmt_registered ps) in
   exists fs' c',
@@ -328,8 +341,8 @@ Proof.
   cbn [spec_packet]. rewrite Hp. cbn [bind].
   replace (filters_contains fs P) with true by (symmetry; apply contains_get; eauto). cbn [bind]. rewrite Hg, Ht. cbn [bind].
   rewrite Hs. cbn [bind]. rewrite Hsc. cbn [handler_consume].
-  rewrite (table_packet_applied false pmt_state ctx event (pmt_section policy false) c cx pk poff S rest v eq_refl Hpl Hpusi Hssi Hlen H12 Hlim Hcrc Hv Hne).
-  rewrite (pmt_section_spec policy (in_state c) cx (hdr_of S) (skipn 3 (S ++ rest)) S (Some (poff + 1 + 0)%nat) HbS H12 Htid Hr0 Eacc).
+  rewrite (table_packet_applied false pmt_state ctx event (pmt_section policy deep) c cx pk poff S rest v eq_refl Hpl Hpusi Hssi Hlen H12 Hlim Hcrc Hv Hne).
+  rewrite (pmt_section_spec policy deep (in_state c) cx (hdr_of S) (skipn 3 (S ++ rest)) S (Some (poff + 1 + 0)%nat) HbS H12 Htid Hr0 Eacc).
   cbn [bind fst snd]. fold ps body ss ents seen reg.
   set (c' := set_inner pmt_state (set_buf pmt_state (set_dedup pmt_state (set_sp_ignore pmt_state c false) (Some v) false) (bf_buf c) Complete)
                {| pmt_pid := pmt_pid ps; pmt_program_number := pmt_program_number ps; pmt_registered := seen |}).
@@ -358,7 +371,7 @@ Lemma pmt_version_routes fs cx i pk P s c poff S rest v :
       let lst := existsb (fun d => p =? s_elementary_pid (si_data d)) ss in
       (* a PID the new version lists: the handler built from the request naming it, its stream type and the program map *)
       (lst = true -> exists k st, nth_error ss k = Some st /\ s_elementary_pid (si_data st) = p /\
-         filters_get fs' p = Some (mk_handler (policy (RqByStream (pmt_pid ps) (s_stream_type (si_data st)) p [s_pcr_pid body]))
+         filters_get fs' p = Some (mk_handler (policy (RqByStream (pmt_pid ps) (s_stream_type (si_data st)) p (pmt_obs deep body st)))
                                               (cx_serial cx + N.of_nat k))) /\
       (* a PID the previous version of this map installed and the new one drops: no handler any more *)
       (lst = false -> bs_mem p (pmt_registered ps) = true -> filters_get fs' p = None) /\
@@ -367,9 +380,9 @@ Lemma pmt_version_routes fs cx i pk P s c poff S rest v :
 Proof.
   intros Hw Hc Hp Hg Hu Hpl Hpusi Hi Hne Hr0 Eacc ps body ss.
   destruct (pmt_packet_changes fs cx i pk P s c poff S rest v Hw Hc Hp Hg Hu Hpl Hpusi Hi Hne Hr0 Eacc) as (fs' & c' & E & Hw' & Hv' & _ & G).
-  exists fs', c', (EvPacket s i [] :: snd (s_apply policy cx (map (pmt_ent (pmt_pid ps) body) ss))).
+  exists fs', c', (EvPacket s i [] :: snd (s_apply policy cx (map (pmt_ent deep (pmt_pid ps) body) ss))).
   split; [exact E|]. split; [exact Hw'|]. split; [exact Hv'|]. intros p lst.
-  set (ents := map (pmt_ent (pmt_pid ps) body) ss).
+  set (ents := map (pmt_ent deep (pmt_pid ps) body) ss).
   set (seen := fold_left (fun s d => bs_insert (s_elementary_pid (si_data d)) s) ss []).
   set (reg := fold_left (fun s d => bs_insert (s_elementary_pid (si_data d)) s) ss (pmt_registered ps)).
   assert (Hex : forall q, existsb (fun e => q =? fst e) ents = existsb (fun d => q =? s_elementary_pid (si_data d)) ss).
